@@ -28,6 +28,7 @@ PYVC_MODULES = [
     "contracts.linalg_bonds",
     "contracts.fuseinfo",
     "contracts.diagonal",
+    "contracts.linalg_fermi",
 ]
 
 BASE = [A_BUILTINS, A_INT, A_TERM, A_NUMPY, A_BOUNDED, A_USER]
